@@ -94,6 +94,16 @@ CHECKS = {
          "Multi-rank programs (1-4 ranks, 0-6 messages; rings, stars, chains, several messages per pair, forwarded and unchanged received data, send holders as payloads, receives used only through a holder, outputs that are inputs / receives, ImplStored anywhere, tags of six hashable types) are partitioned with the real collective code; every execution logs part runs, Isend/Irecv/completions, Waitsome results and every context access through a monitored mapping; all ranks must return within a step budget, outputs must equal plain NumPy evaluation of the global data flow bitwise, no name may be read before it is set or after it is released, each message must be consumed exactly once by a receive with equal (src,dst,tag), shape and dtype. Instances with <= 3 ranks and <= 4 messages are explored exhaustively up to a cap (counted); one in ten programs also runs its parts through generate_loopy + the C runner.",
          "The simulated MPI models eager non-blocking sends, non-overtaking delivery and any-non-empty-subset Waitsome; behaviours of real MPI libraries outside the standard are not modelled. 'All schedules' is decided only where the DFS exhausts the tree (evidence: exhaustive_programs).",
          "DESIGN.md §3 C08"),
+ "C09": ("exploration",
+         "structural invariant monitor over the partitions every rank obtains from the real collective code on the simulated MPI: independent checker of every clause (names read are taken from a reflective walk of the part expressions, then the part's bookkeeping must match); cross-rank matching of sends/receives and of numbered tags; second world with one interpreter process per rank (own PYTHONHASHSEED, own allocation history, pickled collectives relayed by the parent)",
+         "For every program of C08's space (all of them; tags of six hashable kinds) find_distributed_partition, verify_distributed_partition and number_distributed_tags run on every rank under a random collective schedule. Checked per rank and globally, before and after numbering: single producer of each overall output and sent name; every placeholder a part reads is a user input, received by this or an earlier part, or an output of an earlier part, and equals the declared input sets; received names are no outputs, sent names are; no DistributedRecv / send holder inside a part expression or send payload; needed_pids acyclic; every message of the program appears once at each end with equal shape/dtype; the send-part -> receive-part graph over all ranks is acyclic; integer tags are equal at both ends, distinct within a rank pair, next_tag equal on all ranks; the result is independent of the collective schedule and identical (summary + expression fingerprints) when each rank runs in its own process with another hash seed.",
+         "Simulated collectives (payloads pickled per rank). Process world on a sample (16 quick / 160 thorough programs with >= 2 ranks and >= 2 parts).",
+         "DESIGN.md §3 C09"),
+ "C10": ("fault_enumeration",
+         "fault enumeration with an independent well-formedness oracle: every single fault of the quantifier at every communication operation of every generated valid program (plus cancelling and random pairs) is run through the real find/verify on the simulated MPI; expected outcome decided from the harness's own global description; undiagnosed ill-formed programs are executed under adversarial schedules",
+         "Faults: drop / duplicate / retag / redirect (to every other rank, incl. self) one send or one receive, and a dependency closing a cross-rank cycle, at every live communication operation; pairs: the same retag at both ends (cancels: must be accepted), random second faults. Ill-formed (from the description: unmatched, duplicated, self, cyclic) => at least one rank must raise a diagnostic (DistributedPartitionVerificationError family, CycleError, PartitionInducedCycleError, the self-send/receive NotImplementedError); any other exception type, or no exception (then the partition is executed: deadlock / livelock / crash / lost message / silent success reported) is a violation. Well-formed => no rank may raise and execution must reproduce the global reference.",
+         "Ranks blocked in a collective after another rank raised are treated as aborted (MPI_Abort). Structurally equal duplicate receives are one node by pytato's value semantics, so injected duplicates are made distinguishable by a tag. All diagnostics observed come from find_distributed_partition's debug checks (python -O is not exercised).",
+         "DESIGN.md §3 C10"),
 }
 
 NOT_YET = {
